@@ -558,7 +558,7 @@ def stream(ctx):
     """(cls, params, height, [(x, kind)…], pool) for every generated configuration"""
     rng = ctx.rng
     P = pools(rng)
-    rounds = ctx.scale(3, 40)
+    rounds = ctx.scale(6, 40)
     for cls in CLASSES:
         for pool in ("nice", "dyadic", "random"):
             for _ in range(rounds):
@@ -575,7 +575,7 @@ def stream(ctx):
     # hot spots: classes whose code derives a threshold or a centre from the parameters by float arithmetic
     # (s+(e-s), s+r, 0.5*(s+e), c±w/2) on the decimal pool - this is where rounding-only defects (F1, F2) live
     for cls in ("Arc", "SemiEllipse", "Cosine", "SShape", "ZShape", "PiShape", "Ramp", "Concave"):
-        for _ in range(ctx.scale(12, 200)):
+        for _ in range(ctx.scale(30, 300)):
             for p in configs(cls, P["nice"], rng):
                 if valid(cls, p):
                     h = rng.choice([1.0, rng.randint(1, 100) / 100])
